@@ -49,7 +49,7 @@ CHECKS = {
                      "reported offset; import() must accept exactly the bijective index vectors (all n^n vectors for small n, "
                      "out-of-range values, import into used objects).",
                 note=SAN_NOTE),
-    "C06": dict(ready=False, engine="case-runner", level="fault_enumeration", design_ref="DESIGN.md section 3 / C06, notes/c06.md",
+    "C06": dict(ready=True, engine="case-runner", level="fault_enumeration", design_ref="DESIGN.md section 3 / C06, notes/c06.md",
                 technique="differential monitor: CheckGroup/CheckElement verdict vs. an independent GMP reference predicate over a single-field corruption catalogue",
                 text="For 36 class descriptors (every group-carrying class, stream and parameter constructors, canonical on/off) each "
                      "generated set and each single-field corruption from a fixed catalogue (19 corruptions x 151 class/field cells, "
@@ -57,7 +57,7 @@ CHECKS = {
                      "reference verdict (so valid alternatives must be accepted); CheckElement is compared exhaustively over "
                      "[-2,p+2] on toy groups and sampled at 512 bits.  A fixed catalogue at every field is fault enumeration.",
                 note=SAN_NOTE + "; reference predicate in harness/c06_ref.hh (plain GMP, 64 Miller-Rabin rounds); negative fields and TestMembership recorded, not judged"),
-    "C07": dict(ready=False, engine="interposition", level="exploration", design_ref="DESIGN.md section 3 / C07, notes/c07.md",
+    "C07": dict(ready=True, engine="interposition", level="exploration", design_ref="DESIGN.md section 3 / C07, notes/c07.md",
                 technique="statistical monitor: hard range oracle on every draw + chi-square goodness of fit (p<1e-9, re-test on an independent stream before alarm), p-values cross-checked by a Python reference",
                 text="289 multinomial tables per run (full n! histograms n=3..6, position x value and adjacent-pair marginals up to n=64, "
                      "rotation offsets, bounded sampler for small moduli and moduli just above 2^63, residue sampler for 22 moduli, "
@@ -65,35 +65,35 @@ CHECKS = {
                      "quality levels; every draw is range-checked.  Statistical exploration is what uniformity admits; biases below "
                      "~1/sqrt(N) per cell are out of reach.",
                 note="fast (-O2) flavour, asserts on; false-alarm rate ~1e-18 per table by the two-sample rule; trusted: the chi-square implementation (cross-checked by ref/c07_chi2.py)"),
-    "C08": dict(ready=False, engine="two-party-engine", level="exploration", design_ref="DESIGN.md section 3 / C08, notes/c08.md",
+    "C08": dict(ready=True, engine="two-party-engine", level="exploration", design_ref="DESIGN.md section 3 / C08, notes/c08.md",
                 technique="sequential reference-model monitor (set of accepted contributions, h recomputed with GMP and again in Python) after every API call",
                 text="After every UpdateKey/RemoveKey/Finalize of every player instance h must equal h_own * prod(accepted) mod p and "
                      "NumberOfKeys must equal the model; all k! processing orders for k<=4, random add/remove histories for k<=8, a "
                      "malformed-contribution catalogue (3 fields x 17 mutations, crafted order-2 key) through both calls, both group "
                      "classes, closing masking/decryption round.  An offline Python model re-judges every recorded operation.",
                 note=SAN_NOTE + "; duplicate re-submissions recorded, not judged"),
-    "C09": dict(ready=False, engine="case-runner", level="exploration", design_ref="DESIGN.md section 3 / C09, notes/c09.md",
+    "C09": dict(ready=True, engine="case-runner", level="exploration", design_ref="DESIGN.md section 3 / C09, notes/c09.md",
                 technique="differential monitor against two independent references (GMP in the driver, Python big integers offline) over exhaustive small sweeps and random large operands",
                 text="~3.6e7 evaluations per quick run: all exponentiation variants over all odd moduli < 200 and random 64..2048-bit "
                      "operands with all exponent classes and documented refusals; square roots for 306 primes with all residues and "
                      "276 Blum products; 2.7e7 interpolations incl. colliding abscissae; prime generators; mpz<->gcry_mpi; TMCG_Bigint "
                      "on both back ends vs. a Python model.  Full sweeps on the -O2 build, a sample under ASan+UBSan.",
                 note="fast flavour for the sweeps, san flavour for ~10% of the cases; trusted: GMP reference calls, ref/c09_ref.py"),
-    "C10": dict(ready=False, engine="case-runner", level="fault_enumeration", design_ref="DESIGN.md section 3 / C10, notes/c10.md",
+    "C10": dict(ready=True, engine="case-runner", level="fault_enumeration", design_ref="DESIGN.md section 3 / C10, notes/c10.md",
                 technique="round-trip and tamper monitor with a Python reference deciding equivalence (same square mod m) for every mutated field",
                 text="Eight Rabin keys per run (424..1024 bit, with and without validity proof): signature and encryption round trips "
                      "(all four roots), and the QR mutation catalogue on every field of signature, ciphertext and key text, forged "
                      "SAEP/PRab paddings, re-signed invalid keys (fewer proof rounds, altered proof values); a Python reference "
                      "re-decides every recorded evaluation.",
                 note=SAN_NOTE),
-    "C11": dict(ready=False, engine="simnet", level="exploration", design_ref="DESIGN.md section 3 / C11, notes/c11.md",
+    "C11": dict(ready=True, engine="simnet", level="exploration", design_ref="DESIGN.md section 3 / C11, notes/c11.md",
                 technique="round-trip monitor: export(import(export(x))) == export(x) and member/operator== comparison, incl. protocol states from real simulated n-party runs",
                 text="~5000 objects per quick run: cards and card secrets for every (players, type bits) pair into fresh and used "
                      "objects, VTMF cards, stacks and stack secrets up to 512 cards (also through the stream operators), keys, group "
                      "parameter sets of 8 classes, 186 protocol states of PedersenVSS / DKG / RVSS / ZVSS / DSS produced by SimNet runs "
                      "(n=2..5), integers incl. the longest accepted text and refused longer ones.",
                 note=SAN_NOTE + "; types without importer (TMCG_OpenStack, TMCG_PublicKeyRing, JL RVSS/EDCF, NTS) are out"),
-    "C13": dict(ready=False, engine="interposition", level="fault_enumeration", design_ref="DESIGN.md section 3 / C13, notes/c13.md",
+    "C13": dict(ready=True, engine="interposition", level="fault_enumeration", design_ref="DESIGN.md section 3 / C13, notes/c13.md",
                 technique="trace checker over SEND/WIRE/FEED/FAULT/RECV events of a harness-owned byte relay: equality / prefix / subsequence oracles per mode, re-judged offline in Python",
                 text="Both channel classes x all 8 flag combinations: every single split point and every pair of split points of short "
                      "exchanges (2.9e5), random chunking of 200-message runs on 3 links with the three schedulers, values 0..maximum "
